@@ -7,14 +7,14 @@ Property theorems (kept apart from the model `TTV.Matchers` and the specificatio
 All statements are for **every** matcher expression (any depth and fan-out, arbitrary verdict tables for the
 opaque leaves), every value and both set-iteration orders.
 
-* `C06_sound_partial`          : in the documented domain `match()` returns the documented verdict — outside finding D5
-* `C06_sound_setwiseFree`      : the same at full strength for every expression without `MatchesSetwise`
-* `C06_deterministic_partial`  : the verdict does not depend on the set-iteration order — outside D5
+* `C06_sound`                  : in the documented domain `match()` returns the documented verdict (full strength)
+* `C06_deterministic`          : the verdict does not depend on the build / hash-set order of the matchers
+* `C06_setwise`                : `MatchesSetwise` matches iff a one-to-one pairing of values and matchers exists
 * `C06_pure_deterministic`     : same object, same verdict; nothing is modified (by construction of the model)
 * `C06_spec_not/all/any/allMatch/transparent`, `C06_sameMembers_perm`, `C06_spec_setwise_assignment` :
   what the specification says, as plain propositions (negation, ∧, ∨, ∀, ∃, `List.Perm`, ∃ one-to-one assignment)
-* `C06_setwise_witness`        : the model exhibits D5 (`decide`)
-* `holds_model_partial`        : the executable spec holds of the model's trace outside the finding class
+* `C06_setwise_regression`     : the input that exhibited the repaired defect D5 (greedy pairing) matches in both builds
+* `holds_model`                : the executable spec holds of the model's trace, for every input
 -/
 namespace TTV.Props.C06
 open TTV.Matchers TTV.Spec.C06
@@ -170,212 +170,6 @@ theorem leaf_sound (l : Leaf) (v : V) (s : Verdict) (h : leafSpec l v = some s) 
     simp only [leafSpec] at h
     split at h <;> simp_all
 
-/-! ## `MatchesSetwise`: greedy = existence of a one-to-one assignment, when no value matches two matchers -/
-theorem pick_found {row : List Verdict} {rem : List Nat} {i : Nat} (h : pick row rem = .found i) :
-    i ∈ rem ∧ row.getD i .mismatch = .match := by
-  induction rem with
-  | nil => simp [pick] at h
-  | cons j js ih =>
-    simp only [pick] at h
-    split at h
-    · rename_i hj
-      simp only [Pick.found.injEq] at h
-      subst h
-      exact ⟨List.mem_cons_self, hj⟩
-    · simp at h
-    · obtain ⟨h1, h2⟩ := ih h
-      exact ⟨List.mem_cons_of_mem _ h1, h2⟩
-
-theorem pick_nomatch {row : List Verdict} {rem : List Nat} (h : pick row rem = .absent) :
-    ∀ i ∈ rem, row.getD i .mismatch = .mismatch := by
-  induction rem with
-  | nil => simp
-  | cons j js ih =>
-    simp only [pick] at h
-    split at h
-    · simp at h
-    · simp at h
-    · rename_i hj
-      intro i hi
-      rcases List.mem_cons.mp hi with rfl | hi
-      · exact hj
-      · exact ih h i hi
-
-theorem getD_map_ofBool (bs : List Bool) (i : Nat) :
-    (bs.map Verdict.ofBool).getD i .mismatch = .ofBool (bs.getD i false) := by
-  induction bs generalizing i with
-  | nil => simp [Verdict.ofBool]
-  | cons b bs ih => cases i <;> simp_all
-
-theorem pick_no_err {bs : List Bool} {rem : List Nat} {c : ExcCls} :
-    pick (bs.map Verdict.ofBool) rem ≠ .err c := by
-  induction rem with
-  | nil => simp [pick]
-  | cons j js ih =>
-    simp only [pick, getD_map_ofBool]
-    cases bs.getD j false <;> simp [Verdict.ofBool, ih]
-
-theorem one_true {bs : List Bool} {i : Nat} (h : bs.getD i false = true) : 1 ≤ (bs.filter id).length := by
-  induction bs generalizing i with
-  | nil => simp at h
-  | cons b bs ih =>
-    cases i with
-    | zero => simp at h; simp [h]
-    | succ i =>
-      have := ih (i := i) (by simpa using h)
-      cases b <;> simp <;> omega
-
-theorem two_true {bs : List Bool} {i j : Nat} (hij : i ≠ j) (hi : bs.getD i false = true)
-    (hj : bs.getD j false = true) : 2 ≤ (bs.filter id).length := by
-  induction bs generalizing i j with
-  | nil => simp at hi
-  | cons b bs ih =>
-    cases i with
-    | zero =>
-      cases j with
-      | zero => exact absurd rfl hij
-      | succ j =>
-        have := one_true (bs := bs) (i := j) (by simpa using hj)
-        simp at hi; simp [hi]; omega
-    | succ i =>
-      cases j with
-      | zero =>
-        have := one_true (bs := bs) (i := i) (by simpa using hi)
-        simp at hj; simp [hj]; omega
-      | succ j =>
-        have := ih (i := i) (j := j) (by omega) (by simpa using hi) (by simpa using hj)
-        cases b <;> simp <;> omega
-
-theorem seqAllAux_all_mismatch (bad : Bool) (l : List Verdict) (h : ∀ r ∈ l, r = Verdict.mismatch)
-    (hne : bad = true ∨ l ≠ []) : seqAllAux false bad l = .mismatch := by
-  induction l generalizing bad with
-  | nil => cases bad <;> simp_all [seqAllAux]
-  | cons r rs ih =>
-    have hr := h r List.mem_cons_self
-    subst hr
-    simp only [seqAllAux, Bool.false_eq_true, ↓reduceIte]
-    exact ih true (fun r hr => h r (List.mem_cons_of_mem _ hr)) (Or.inl rfl)
-
-theorem zipWith_all_mismatch (f : Nat → V → Verdict) : ∀ (r : List Nat) (n : List V),
-    (∀ x ∈ n, ∀ i ∈ r, f i x = .mismatch) → ∀ y ∈ List.zipWith f r n, y = Verdict.mismatch
-  | [], _, _, y, hy => by simp at hy
-  | _ :: _, [], _, y, hy => by simp at hy
-  | i :: r, x :: n, h, y, hy => by
-    simp only [List.zipWith_cons_cons, List.mem_cons] at hy
-    rcases hy with rfl | hy
-    · exact h x List.mem_cons_self i List.mem_cons_self
-    · exact zipWith_all_mismatch f r n
-        (fun x' hx' i' hi' => h x' (List.mem_cons_of_mem _ hx') i' (List.mem_cons_of_mem _ hi')) y hy
-
-theorem setwiseFinish_spec (rowOf : V → List Verdict) (rem : List Nat) (nm : List V)
-    (inv : ∀ x ∈ nm, ∀ i ∈ rem, (rowOf x).getD i .mismatch = .mismatch) :
-    setwiseFinish rowOf rem nm = .ofBool (nm.isEmpty && rem.isEmpty) := by
-  unfold setwiseFinish
-  cases nm with
-  | nil => cases rem <;> simp [Verdict.ofBool]
-  | cons x nm =>
-    cases rem with
-    | nil => simp [Verdict.ofBool]
-    | cons i rem =>
-      simp only [List.isEmpty_cons, Bool.and_self, Bool.false_eq_true, ↓reduceIte, Verdict.ofBool, seqAll]
-      apply seqAllAux_all_mismatch
-      · apply zipWith_all_mismatch
-        intro x' hx' i' hi'
-        exact inv x' (List.mem_of_mem_take hx') i' (List.mem_of_mem_take hi')
-      · right
-        have h1 : min (i :: rem).length (x :: nm).length = (min rem.length nm.length) + 1 := by
-          simp only [List.length_cons]; omega
-        rw [h1]
-        simp
-
-theorem assignB_unique (row : List Bool) (rows : List (List Bool)) (rem : List Nat) (i : Nat)
-    (hi : i ∈ rem) (hrow : row.getD i false = true) (huniq : (row.filter id).length < 2) :
-    assignB (row :: rows) rem = assignB rows (rem.erase i) := by
-  simp only [assignB]
-  rw [Bool.eq_iff_iff, List.any_eq_true]
-  constructor
-  · rintro ⟨j, hj, h⟩
-    simp only [Bool.and_eq_true] at h
-    by_cases hji : j = i
-    · subst hji; exact h.2
-    · have := two_true hji h.1 hrow
-      omega
-  · intro h
-    exact ⟨i, hi, by rw [hrow, h]; rfl⟩
-
-theorem assignB_none (row : List Bool) (rows : List (List Bool)) (rem : List Nat)
-    (h : ∀ i ∈ rem, row.getD i false = false) : assignB (row :: rows) rem = false := by
-  simp only [assignB]
-  rw [List.any_eq_false]
-  intro i hi
-  rw [h i hi]; simp
-
-theorem greedy_spec (rowOf : V → List Verdict) (rowB : V → List Bool) :
-    ∀ (xs : List V) (rem : List Nat) (nm : List V),
-      (∀ x ∈ xs, rowOf x = (rowB x).map Verdict.ofBool) →
-      (∀ x ∈ xs, ((rowB x).filter id).length < 2) →
-      (∀ x ∈ nm, ∀ i ∈ rem, (rowOf x).getD i .mismatch = .mismatch) →
-      (match greedy rowOf xs rem nm with
-        | .ok (r, n) => setwiseFinish rowOf r n
-        | .error c => .raised c) = .ofBool (nm.isEmpty && assignB (xs.map rowB) rem)
-  | [], rem, nm, _, _, inv => by
-    simp only [greedy, List.map_nil, assignB]
-    exact setwiseFinish_spec rowOf rem nm inv
-  | x :: xs, rem, nm, hrow, huniq, inv => by
-    have hx := hrow x List.mem_cons_self
-    have hrow' : ∀ y ∈ xs, rowOf y = (rowB y).map Verdict.ofBool :=
-      fun y hy => hrow y (List.mem_cons_of_mem _ hy)
-    have huniq' : ∀ y ∈ xs, ((rowB y).filter id).length < 2 :=
-      fun y hy => huniq y (List.mem_cons_of_mem _ hy)
-    simp only [greedy, List.map_cons]
-    cases hp : pick (rowOf x) rem with
-    | found i =>
-      obtain ⟨hi, hm⟩ := pick_found hp
-      simp only
-      rw [greedy_spec rowOf rowB xs (rem.erase i) nm hrow' huniq'
-        (fun y hy j hj => inv y hy j (List.mem_of_mem_erase hj))]
-      rw [assignB_unique (rowB x) (xs.map rowB) rem i hi ?_ (huniq x List.mem_cons_self)]
-      rw [hx, getD_map_ofBool] at hm
-      cases h : (rowB x).getD i false <;> simp_all [Verdict.ofBool]
-    | absent =>
-      have hn := pick_nomatch hp
-      simp only
-      rw [greedy_spec rowOf rowB xs rem (nm ++ [x]) hrow' huniq' ?_]
-      · rw [assignB_none (rowB x) (xs.map rowB) rem ?_]
-        · cases nm <;> simp
-        · intro i hi
-          have := hn i hi
-          rw [hx, getD_map_ofBool] at this
-          cases h : (rowB x).getD i false <;> simp_all [Verdict.ofBool]
-      · intro y hy j hj
-        rcases List.mem_append.mp hy with hy | hy
-        · exact inv y hy j hj
-        · simp only [List.mem_singleton] at hy
-          subst hy
-          exact hn j hj
-    | err c =>
-      rw [hx] at hp
-      exact absurd hp pick_no_err
-
-theorem assignB_perm (rows : List (List Bool)) : ∀ {r1 r2 : List Nat}, r1.Perm r2 →
-    assignB rows r1 = assignB rows r2 := by
-  induction rows with
-  | nil =>
-    intro r1 r2 h
-    simp only [assignB]
-    cases r1 <;> cases r2 <;> simp_all
-  | cons row rows ih =>
-    intro r1 r2 h
-    simp only [assignB]
-    rw [Bool.eq_iff_iff, List.any_eq_true, List.any_eq_true]
-    constructor
-    · rintro ⟨i, hi, hh⟩
-      refine ⟨i, h.mem_iff.mp hi, ?_⟩
-      rw [← ih (h.erase i)]; exact hh
-    · rintro ⟨i, hi, hh⟩
-      refine ⟨i, h.mem_iff.mpr hi, ?_⟩
-      rw [ih (h.erase i)]; exact hh
-
 /-! ## soundness of `matchImpl` w.r.t. the documented semantics, by induction on the expression -/
 theorem pyLen_of_pyIter {v : V} {xs : List V} (h : pyIter v = some xs) : pyLen v = some xs.length := by
   cases v <;> simp_all [pyIter, pyLen] <;> (subst h; simp)
@@ -392,17 +186,6 @@ theorem map_bools {f : V → Verdict} {g : V → Option Verdict} : ∀ {xs : Lis
 theorem option_map_some {α β : Type} {f : α → β} {o : Option α} {b : β} (h : o.map f = some b) :
     ∃ a, o = some a ∧ f a = b := by
   cases o <;> simp_all
-
-theorem matchCount_bools : ∀ {rs : List (Option Verdict)} {bs : List Bool}, bools rs = some bs →
-    matchCount rs = (bs.filter id).length
-  | [], bs, h => by simp [bools] at h; subst h; simp [matchCount]
-  | r :: rs, bs, h => by
-    obtain ⟨b, bs', rfl, hb, hbs⟩ := bools_cons h
-    have ih := matchCount_bools hbs
-    have hr := strictB_some hb
-    subst hr
-    unfold matchCount at ih ⊢
-    cases b <;> simp [Verdict.ofBool, ih]
 
 theorem allSome_map {α : Type} (d : α) {f : V → Option α} : ∀ {xs : List V} {ys : List α},
     allSome (xs.map f) = some ys →
@@ -450,12 +233,6 @@ theorem sortKey_perm {α : Type} (l : List (Nat × α)) : (sortKey l).Perm l := 
   | nil => simp [sortKey]
   | cons x xs ih => exact (insertKey_perm x _).trans (List.Perm.cons x ih)
 
-theorem orderIdx_perm (keys : List Nat) (n : Nat) : (orderIdx keys n).Perm (List.range n) := by
-  unfold orderIdx
-  have := (sortKey_perm ((List.range n).map fun i => (keys.getD i 0, i))).map (·.2)
-  refine this.trans ?_
-  simp [List.map_map, Function.comp_def]
-
 /-- shape of `matchZip`: a position has no result exactly where it has no value -/
 theorem matchZip_shape (sel : Bool) : ∀ (ms : List M) (vs : List (Option V)), ms.length = vs.length →
     (matchZip sel ms vs).length = vs.length ∧
@@ -470,40 +247,51 @@ theorem matchZip_shape (sel : Bool) : ∀ (ms : List M) (vs : List (Option V)), 
     have := matchZip_shape sel ms vs (by simpa using h)
     simp [matchZip, this.1, this.2]
 
-theorem setwise_sound (sel : Bool) (ms : List M) (keys : List Nat) (v : V) (s : Verdict)
-    (hrow : ∀ x bs, bools (specRow ms x) = some bs → ambRow ms x = false →
-      matchRow sel ms x = bs.map Verdict.ofBool)
+theorem firstRaise_bools : ∀ (l : List Verdict), (∀ r ∈ l, ∃ b, r = Verdict.ofBool b) → firstRaise l = none
+  | [], _ => rfl
+  | r :: rs, h => by
+    obtain ⟨b, rfl⟩ := h r List.mem_cons_self
+    have ih := firstRaise_bools rs (fun x hx => h x (List.mem_cons_of_mem _ hx))
+    cases b <;> simp [firstRaise, Verdict.ofBool, ih]
+
+theorem isMatch_ofBool (bs : List Bool) : (bs.map Verdict.ofBool).map Verdict.isMatch = bs := by
+  induction bs with
+  | nil => rfl
+  | cons b bs ih => cases b <;> simp_all [Verdict.ofBool, Verdict.isMatch]
+
+/-- `MatchesSetwise`: when every (value, matcher) pair has a Boolean documented verdict and the parts are
+sound, the code's verdict is the documented one: a one-to-one pairing exists -/
+theorem setwise_sound (sel : Bool) (ms : List M) (v : V) (s : Verdict)
+    (hrow : ∀ x bs, bools (specRow ms x) = some bs → matchRow sel ms x = bs.map Verdict.ofBool)
     (h : (match pyIter v with
       | none => none
       | some xs => (allSome (xs.map fun x => bools (specRow ms x))).map fun matrix =>
-          Verdict.ofBool (assignB matrix (List.range ms.length))) = some s)
-    (ha : (match pyIter v with
-      | none => false
-      | some xs => xs.any fun x => decide (2 ≤ matchCount (specRow ms x)) || ambRow ms x) = false) :
-    setwiseImpl (fun x => matchRow sel ms x) keys ms.length v = s := by
+          Verdict.ofBool (assignB matrix (List.range ms.length))) = some s) :
+    setwiseImpl (fun x => matchRow sel ms x) ms.length v = s := by
   unfold setwiseImpl
   cases hv : pyIter v with
   | none => simp [hv] at h
   | some xs =>
-    simp only [hv] at h ha ⊢
+    simp only [hv] at h ⊢
     obtain ⟨matrix, hm, rfl⟩ := option_map_some h
     obtain ⟨hmat, hrows⟩ := allSome_map [] hm
-    rw [List.any_eq_false] at ha
-    have key := greedy_spec (fun x => matchRow sel ms x) (fun x => (bools (specRow ms x)).getD []) xs
-      (orderIdx keys ms.length) []
-      (fun x hx => hrow x _ (hrows x hx) (by have := ha x hx; simp at this; exact this.2))
-      (fun x hx => by
-        have := ha x hx
-        simp only [Bool.or_eq_true, decide_eq_true_eq, not_or, Nat.not_le] at this
-        rw [← matchCount_bools (hrows x hx)]
-        exact this.1)
-      (by simp)
-    simp only [List.isEmpty_nil, Bool.true_and] at key
-    rw [assignB_perm _ (orderIdx_perm keys ms.length), ← hmat] at key
-    rw [← key]
-    cases greedy (fun x => matchRow sel ms x) xs (orderIdx keys ms.length) [] with
-    | error c => rfl
-    | ok p => rfl
+    have hmap : xs.map (fun x => matchRow sel ms x)
+        = xs.map (fun x => ((bools (specRow ms x)).getD []).map Verdict.ofBool) := by
+      apply List.map_congr_left
+      intro x hx
+      exact hrow x _ (hrows x hx)
+    rw [hmap]
+    have hnr : firstRaise (xs.map fun x => ((bools (specRow ms x)).getD []).map Verdict.ofBool).flatten = none := by
+      apply firstRaise_bools
+      intro r hr
+      obtain ⟨row, hrow', hr'⟩ := List.mem_flatten.mp hr
+      obtain ⟨x, _, rfl⟩ := List.mem_map.mp hrow'
+      obtain ⟨b, _, rfl⟩ := List.mem_map.mp hr'
+      exact ⟨b, rfl⟩
+    have hisM : ∀ bs : List Bool, bs.map (fun b => (Verdict.ofBool b).isMatch) = bs := by
+      intro bs; simpa [List.map_map, Function.comp_def] using isMatch_ofBool bs
+    simp only [hnr, List.map_map, Function.comp_def, hisM]
+    rw [hmat]
 
 theorem keyCond_eq (kind : DictKind) (ks oks : List Nat) :
     keyCond kind ks oks = !(match kind with
@@ -514,115 +302,103 @@ theorem keyCond_eq (kind : DictKind) (ks oks : List Nat) :
 
 mutual
 theorem sound (sel : Bool) : ∀ (m : M) (v : V) (s : Verdict),
-    spec m v = some s → amb m v = false → matchImpl sel m v = s
-  | .leaf l, v, s, h, _ => by
+    spec m v = some s → matchImpl sel m v = s
+  | .leaf l, v, s, h => by
     simp only [spec] at h
     simp only [matchImpl]
     exact leaf_sound l v s h
-  | .excTypeV cs vm, v, s, h, ha => by
+  | .excTypeV cs vm, v, s, h => by
     simp only [spec] at h
-    simp only [amb] at ha
     simp only [matchImpl]
     split at h
     · rename_i e
-      simp only at ha ⊢
+      simp only
       split at h
       · rename_i hm
         obtain ⟨b, hb, rfl⟩ := option_map_some h
-        simp only [hm, Bool.true_and, ↓reduceIte] at ha ⊢
-        exact sound sel vm _ _ (strictB_some hb) ha
+        simp only [hm, ↓reduceIte]
+        exact sound sel vm _ _ (strictB_some hb)
       · rename_i hm
         simp only [Bool.not_eq_true] at hm
         simp_all
     · split <;> simp_all
-  | .raises em, v, s, h, ha => by
+  | .raises em, v, s, h => by
     simp only [spec] at h
-    simp only [amb] at ha
     simp only [matchImpl]
     split at h
     · simp_all [callV]
     · rename_i e
-      simp only [callV] at ha ⊢
+      simp only [callV]
       split at h
       · rename_i hb
-        rw [sound sel em _ _ (strictB_some hb) ha]
+        rw [sound sel em _ _ (strictB_some hb)]
         simp only [Option.some.injEq] at h
         subst h
         simp [Verdict.ofBool]
       · rename_i hb
-        rw [sound sel em _ _ (strictB_some hb) ha]
+        rw [sound sel em _ _ (strictB_some hb)]
         simp only [Verdict.ofBool, Bool.false_eq_true, ↓reduceIte]
         simp_all
       · simp at h
     · simp at h
-  | .not m, v, s, h, ha => by
+  | .not m, v, s, h => by
     simp only [spec] at h
-    simp only [amb] at ha
     simp only [matchImpl]
     obtain ⟨b, hb, rfl⟩ := option_map_some h
-    rw [sound sel m v _ (strictB_some hb) ha]
+    rw [sound sel m v _ (strictB_some hb)]
     cases b <;> simp [Verdict.ofBool]
-  | .all fo ms, v, s, h, ha => by
+  | .all fo ms, v, s, h => by
     simp only [spec] at h
-    simp only [amb] at ha
     simp only [matchImpl]
     obtain ⟨bs, hb, rfl⟩ := option_map_some h
-    rw [soundRow sel ms v bs hb ha, seqAll_bools]
-  | .any ms, v, s, h, ha => by
+    rw [soundRow sel ms v bs hb, seqAll_bools]
+  | .any ms, v, s, h => by
     simp only [spec] at h
-    simp only [amb] at ha
     simp only [matchImpl]
     obtain ⟨bs, hb, rfl⟩ := option_map_some h
-    rw [soundRow sel ms v bs hb ha, seqAny_bools]
-  | .allMatch m, v, s, h, ha => by
+    rw [soundRow sel ms v bs hb, seqAny_bools]
+  | .allMatch m, v, s, h => by
     simp only [spec] at h
-    simp only [amb] at ha
     simp only [matchImpl]
     cases hv : pyIter v with
     | none => simp [hv] at h
     | some xs =>
-      simp only [hv] at h ha ⊢
+      simp only [hv] at h ⊢
       obtain ⟨bs, hb, rfl⟩ := option_map_some h
-      rw [List.any_eq_false] at ha
-      rw [map_bools hb (fun x hx s hs => sound sel m x s hs (by simpa using ha x hx)), seqAll_bools]
-  | .anyMatch m, v, s, h, ha => by
+      rw [map_bools hb (fun x _ s hs => sound sel m x s hs), seqAll_bools]
+  | .anyMatch m, v, s, h => by
     simp only [spec] at h
-    simp only [amb] at ha
     simp only [matchImpl]
     cases hv : pyIter v with
     | none => simp [hv] at h
     | some xs =>
-      simp only [hv] at h ha ⊢
+      simp only [hv] at h ⊢
       obtain ⟨bs, hb, rfl⟩ := option_map_some h
-      rw [List.any_eq_false] at ha
-      rw [map_bools hb (fun x hx s hs => sound sel m x s hs (by simpa using ha x hx)), seqAny_bools]
-  | .listwise fo ms, v, s, h, ha => by
+      rw [map_bools hb (fun x _ s hs => sound sel m x s hs), seqAny_bools]
+  | .listwise fo ms, v, s, h => by
     simp only [spec] at h
-    simp only [amb] at ha
     simp only [matchImpl]
     cases hv : pyIter v with
     | none => simp [hv] at h
     | some xs =>
-      simp only [hv] at h ha ⊢
+      simp only [hv] at h ⊢
       obtain ⟨bs, hb, rfl⟩ := option_map_some h
-      rw [soundZip sel ms _ bs hb ha]
+      rw [soundZip sel ms _ bs hb]
       simp only [listwiseImpl, pyLen_of_pyIter hv, seqAllAux_bools]
       simp [bne]
-  | .setwise ka kb ms, v, s, h, ha => by
+  | .setwise ka kb ms, v, s, h => by
     simp only [spec] at h
-    simp only [amb] at ha
     simp only [matchImpl]
-    exact setwise_sound sel ms _ v s (fun x bs hb hx => soundRow sel ms x bs hb hx) h ha
-  | .structure attrs ms, v, s, h, ha => by
+    exact setwise_sound sel ms v s (fun x bs hb => soundRow sel ms x bs hb) h
+  | .structure attrs ms, v, s, h => by
     simp only [spec] at h
-    simp only [amb] at ha
     simp only [matchImpl]
     split at h
     · simp at h
     · rename_i hc
       simp only [Bool.or_eq_true, bne_iff_ne, ne_eq, not_or, Decidable.not_not, Bool.not_eq_true] at hc
       obtain ⟨bs, hb, rfl⟩ := option_map_some h
-      have hz := soundZip sel ms _ bs hb ha
+      have hz := soundZip sel ms _ bs hb
       have hshape := matchZip_shape sel ms (attrs.map (getAttr v)) (by simp [hc.1])
       unfold structImpl
       rw [hshape.2, hc.2, hshape.1]
@@ -645,171 +421,78 @@ theorem sound (sel : Bool) : ∀ (m : M) (v : V) (s : Verdict),
       congr 1
       funext b
       cases b <;> simp [Verdict.ofBool]
-  | .dict kind ks ms, v, s, h, ha => by
+  | .dict kind ks ms, v, s, h => by
     simp only [spec] at h
-    simp only [amb] at ha
     simp only [matchImpl]
     split at h
     · rename_i oks ovs
-      simp only at ha ⊢
+      simp only
       split at h
       · simp at h
       · obtain ⟨bs, hb, rfl⟩ := option_map_some h
         simp only [dictImpl]
-        rw [soundZip sel ms _ bs hb ha, seqAllAux_bools, keyCond_eq]
+        rw [soundZip sel ms _ bs hb, seqAllAux_bools, keyCond_eq]
         cases kind <;> rfl
     · simp at h
-  | .annotate m, v, s, h, ha => by
+  | .annotate m, v, s, h => by
     simp only [spec] at h
-    simp only [amb] at ha
     simp only [matchImpl]
-    exact sound sel m v s h ha
-  | .after f a m, v, s, h, ha => by
+    exact sound sel m v s h
+  | .after f a m, v, s, h => by
     simp only [spec] at h
-    simp only [amb] at ha
     simp only [matchImpl]
     cases hp : applyPre f v with
     | error c => simp [hp] at h
     | ok w =>
-      simp only [hp] at h ha ⊢
-      exact sound sel m w s h ha
+      simp only [hp] at h ⊢
+      exact sound sel m w s h
 theorem soundRow (sel : Bool) : ∀ (ms : List M) (v : V) (bs : List Bool),
-    bools (specRow ms v) = some bs → ambRow ms v = false → matchRow sel ms v = bs.map Verdict.ofBool
-  | [], v, bs, h, _ => by simp [specRow, bools] at h; simp [matchRow, ← h]
-  | m :: ms, v, bs, h, ha => by
+    bools (specRow ms v) = some bs → matchRow sel ms v = bs.map Verdict.ofBool
+  | [], v, bs, h => by simp [specRow, bools] at h; simp [matchRow, ← h]
+  | m :: ms, v, bs, h => by
     simp only [specRow] at h
-    simp only [ambRow, Bool.or_eq_false_iff] at ha
     obtain ⟨b, bs', rfl, hb, hbs⟩ := bools_cons h
     simp only [matchRow, List.map_cons]
-    rw [sound sel m v _ (strictB_some hb) ha.1, soundRow sel ms v bs' hbs ha.2]
+    rw [sound sel m v _ (strictB_some hb), soundRow sel ms v bs' hbs]
 theorem soundZip (sel : Bool) : ∀ (ms : List M) (vs : List (Option V)) (bs : List Bool),
-    bools (specZip ms vs) = some bs → ambZip ms vs = false →
-      somes (matchZip sel ms vs) = bs.map Verdict.ofBool
-  | [], vs, bs, h, _ => by simp [specZip, bools] at h; simp [matchZip, somes, ← h]
-  | _ :: _, [], bs, h, _ => by simp [specZip, bools] at h; simp [matchZip, somes, ← h]
-  | m :: ms, none :: vs, bs, h, ha => by
+    bools (specZip ms vs) = some bs → somes (matchZip sel ms vs) = bs.map Verdict.ofBool
+  | [], vs, bs, h => by simp [specZip, bools] at h; simp [matchZip, somes, ← h]
+  | _ :: _, [], bs, h => by simp [specZip, bools] at h; simp [matchZip, somes, ← h]
+  | m :: ms, none :: vs, bs, h => by
     simp only [specZip] at h
-    simp only [ambZip] at ha
     simp only [matchZip, somes]
-    exact soundZip sel ms vs bs h ha
-  | m :: ms, some v :: vs, bs, h, ha => by
+    exact soundZip sel ms vs bs h
+  | m :: ms, some v :: vs, bs, h => by
     simp only [specZip] at h
-    simp only [ambZip, Bool.or_eq_false_iff] at ha
     obtain ⟨b, bs', rfl, hb, hbs⟩ := bools_cons h
     simp only [matchZip, somes, List.map_cons]
-    rw [sound sel m v _ (strictB_some hb) ha.1, soundZip sel ms vs bs' hbs ha.2]
+    rw [sound sel m v _ (strictB_some hb), soundZip sel ms vs bs' hbs]
 end
 
 /-! # The property theorems -/
 
-/-- **C06 (soundness).**  For every matcher expression (any depth, any leaves incl. arbitrary opaque
-predicate tables), every value in the documented domain (`spec m v = some s`) and either
-set-iteration order: `match()` returns exactly the documented verdict — provided no
-`MatchesSetwise` node is reached with a value matching two of its matchers (finding D5).
+/-- **C06 (soundness).**  For every matcher expression (any depth; all stock matchers and combinators,
+`MatchesSetwise` included; leaves whose meaning lives in another library as arbitrary predicate tables),
+every value in the documented domain (`spec m v = some s`) and either build of the expression:
+`match()` returns exactly the documented verdict. -/
+theorem C06_sound (sel : Bool) (m : M) (v : V) (s : Verdict) (hdom : spec m v = some s) :
+    matchImpl sel m v = s :=
+  sound sel m v s hdom
 
-Full statement (false because of D5, see `C06_setwise_witness`):
-`∀ sel m v s, spec m v = some s → matchImpl sel m v = s`. -/
-theorem C06_sound_partial (sel : Bool) (m : M) (v : V) (s : Verdict)
-    (hdom : spec m v = some s) (hunamb : amb m v = false) : matchImpl sel m v = s :=
-  sound sel m v s hdom hunamb
+/-- **C06 (determinism across builds / hash-set orders)**: in the documented domain the verdict does not
+depend on how the set of matchers of a `MatchesSetwise` happens to iterate. -/
+theorem C06_deterministic (m : M) (v : V) (hdom : (spec m v).isSome = true) :
+    matchImpl true m v = matchImpl false m v := by
+  obtain ⟨s, hs⟩ := Option.isSome_iff_exists.mp hdom
+  rw [sound true m v s hs, sound false m v s hs]
 
-/-- **C06 (determinism across builds / set orders)**, same restriction.
-Full statement: `∀ m v, (spec m v).isSome → matchImpl true m v = matchImpl false m v`. -/
-theorem C06_deterministic_partial (m : M) (v : V) (s : Verdict)
-    (hdom : spec m v = some s) (hunamb : amb m v = false) : matchImpl true m v = matchImpl false m v := by
-  rw [sound true m v s hdom hunamb, sound false m v s hdom hunamb]
-
-/- expressions without `MatchesSetwise` -/
-mutual
-def setwiseFree : M → Bool
-  | .leaf _ => true
-  | .excTypeV _ vm => setwiseFree vm
-  | .raises em => setwiseFree em
-  | .not m => setwiseFree m
-  | .all _ ms => setwiseFreeL ms
-  | .any ms => setwiseFreeL ms
-  | .allMatch m => setwiseFree m
-  | .anyMatch m => setwiseFree m
-  | .listwise _ ms => setwiseFreeL ms
-  | .setwise _ _ _ => false
-  | .structure _ ms => setwiseFreeL ms
-  | .dict _ _ ms => setwiseFreeL ms
-  | .annotate m => setwiseFree m
-  | .after _ _ m => setwiseFree m
-def setwiseFreeL : List M → Bool
-  | [] => true
-  | m :: ms => setwiseFree m && setwiseFreeL ms
-end
-
-mutual
-theorem amb_of_setwiseFree : ∀ (m : M) (v : V), setwiseFree m = true → amb m v = false
-  | .leaf _, _, _ => by simp [amb]
-  | .excTypeV cs vm, v, h => by
-    simp only [setwiseFree] at h
-    simp only [amb]
-    split <;> simp [amb_of_setwiseFree vm _ h]
-  | .raises em, v, h => by
-    simp only [setwiseFree] at h
-    simp only [amb]
-    split <;> simp [amb_of_setwiseFree em _ h]
-  | .not m, v, h => by simp only [setwiseFree] at h; simp [amb, amb_of_setwiseFree m v h]
-  | .all _ ms, v, h => by simp only [setwiseFree] at h; simp [amb, ambRow_of_setwiseFree ms v h]
-  | .any ms, v, h => by simp only [setwiseFree] at h; simp [amb, ambRow_of_setwiseFree ms v h]
-  | .allMatch m, v, h => by
-    simp only [setwiseFree] at h
-    simp only [amb]
-    split
-    · rfl
-    · rw [List.any_eq_false]; intro x _; simp [amb_of_setwiseFree m x h]
-  | .anyMatch m, v, h => by
-    simp only [setwiseFree] at h
-    simp only [amb]
-    split
-    · rfl
-    · rw [List.any_eq_false]; intro x _; simp [amb_of_setwiseFree m x h]
-  | .listwise _ ms, v, h => by
-    simp only [setwiseFree] at h
-    simp only [amb]
-    split
-    · rfl
-    · exact ambZip_of_setwiseFree ms _ h
-  | .setwise _ _ _, _, h => by simp [setwiseFree] at h
-  | .structure _ ms, v, h => by simp only [setwiseFree] at h; simp [amb, ambZip_of_setwiseFree ms _ h]
-  | .dict _ _ ms, v, h => by
-    simp only [setwiseFree] at h
-    simp only [amb]
-    split
-    · exact ambZip_of_setwiseFree ms _ h
-    · rfl
-  | .annotate m, v, h => by simp only [setwiseFree] at h; simp [amb, amb_of_setwiseFree m v h]
-  | .after f _ m, v, h => by
-    simp only [setwiseFree] at h
-    simp only [amb]
-    split
-    · exact amb_of_setwiseFree m _ h
-    · rfl
-theorem ambRow_of_setwiseFree : ∀ (ms : List M) (v : V), setwiseFreeL ms = true → ambRow ms v = false
-  | [], _, _ => by simp [ambRow]
-  | m :: ms, v, h => by
-    simp only [setwiseFreeL, Bool.and_eq_true] at h
-    simp [ambRow, amb_of_setwiseFree m v h.1, ambRow_of_setwiseFree ms v h.2]
-theorem ambZip_of_setwiseFree : ∀ (ms : List M) (vs : List (Option V)), setwiseFreeL ms = true →
-    ambZip ms vs = false
-  | [], vs, _ => by simp [ambZip]
-  | _ :: _, [], _ => by simp [ambZip]
-  | m :: ms, none :: vs, h => by
-    simp only [setwiseFreeL, Bool.and_eq_true] at h
-    simp [ambZip, ambZip_of_setwiseFree ms vs h.2]
-  | m :: ms, some v :: vs, h => by
-    simp only [setwiseFreeL, Bool.and_eq_true] at h
-    simp [ambZip, amb_of_setwiseFree m v h.1, ambZip_of_setwiseFree ms vs h.2]
-end
-
-/-- **C06 (soundness, full strength)** for every expression that does not contain `MatchesSetwise`:
-all stock matchers and combinators, any depth, any value of the documented domain. -/
-theorem C06_sound_setwiseFree (sel : Bool) (m : M) (v : V) (s : Verdict)
-    (hfree : setwiseFree m = true) (hdom : spec m v = some s) : matchImpl sel m v = s :=
-  sound sel m v s hdom (amb_of_setwiseFree m v hfree)
+/-- **C06 (`MatchesSetwise`)**: with every (value, matcher) pair inside the domain, the verdict is a match
+exactly when a one-to-one pairing of all values with all matchers exists (`C06_spec_setwise_assignment`
+reads `assignB` as the existence of such a pairing). -/
+theorem C06_setwise (sel : Bool) (ka kb : List Nat) (ms : List M) (v : V) (xs : List V) (matrix : List (List Bool))
+    (hv : pyIter v = some xs) (hm : allSome (xs.map fun x => bools (specRow ms x)) = some matrix) :
+    matchImpl sel (.setwise ka kb ms) v = .ofBool (assignB matrix (List.range ms.length)) :=
+  sound sel _ v _ (by simp [spec, hv, hm])
 
 /-- **C06 (determinism and purity of the model)**: calling `match()` again on the same matcher object
 gives the same verdict, and nothing is modified — by construction (`matchImpl` is a function of the
@@ -962,47 +645,45 @@ theorem C06_spec_setwise_assignment (rows : List (List Bool)) : ∀ (rem : List 
         refine ⟨i, hi, hrow, (ih _).mpr ⟨p', ?_, hf⟩⟩
         exact List.Perm.cons_inv (hp.trans (List.perm_cons_erase hi))
 
-/-! ## the recorded finding D5: the model exhibits the defect -/
+/-! ## the repaired defect D5 (greedy pairing in set-iteration order): regression witnesses -/
 def witnessM : M :=
   .setwise [0, 1] [1, 0] [.any [.leaf (.equals (.int 1)), .leaf (.equals (.int 2))], .leaf (.equals (.int 1))]
 def witnessV : V := .list [.int 1, .int 2]
 
-/-- `MatchesSetwise(MatchesAny(Equals(1), Equals(2)), Equals(1))` on `[1, 2]`: a one-to-one assignment
-exists (documented verdict: match); the code says mismatch when the set iterates `MatchesAny` first and
-match when it iterates `Equals(1)` first. -/
-theorem C06_setwise_witness :
-    amb witnessM witnessV = true ∧ spec witnessM witnessV = some .match ∧
-    matchImpl true witnessM witnessV = .mismatch ∧ matchImpl false witnessM witnessV = .match ∧
-    holds ⟨witnessM, witnessV⟩ (model ⟨witnessM, witnessV⟩) = false := by
+/-- `MatchesSetwise(MatchesAny(Equals(1), Equals(2)), Equals(1))` on `[1, 2]`: a one-to-one pairing
+exists; the greedy code said mismatch whenever the set iterated `MatchesAny` first.  Both builds match. -/
+theorem C06_setwise_regression :
+    spec witnessM witnessV = some .match ∧
+    matchImpl true witnessM witnessV = .match ∧ matchImpl false witnessM witnessV = .match := by
   decide
 
 /-! ## headline -/
-/-- The executable specification holds of the model's trace for every input outside the finding class
-`ambiguousSetwise`.  Full statement (false because of D5): `∀ i, holds i (model i) = true`. -/
-theorem holds_model_partial (i : Input) (h : amb i.m i.v = false) : holds i (model i) = true := by
+/-- The executable specification holds of the model's trace, for every input. -/
+theorem holds_model (i : Input) : holds i (model i) = true := by
   simp only [holds, clauses, List.all_cons, List.all_nil, Bool.and_true, Bool.and_eq_true]
   refine ⟨?_, ?_, ?_⟩
   · simp only [cSound, model]
     split
     · rfl
     · rename_i s hs
-      rw [sound true i.m i.v s hs h]; simp
+      rw [sound true i.m i.v s hs]; simp
   · simp only [cDeterministic, model, beq_self_eq_true, Bool.true_and]
     cases hs : spec i.m i.v with
     | none => simp
-    | some s => rw [sound true i.m i.v s hs h, sound false i.m i.v s hs h]; simp
+    | some s => rw [sound true i.m i.v s hs, sound false i.m i.v s hs]; simp
   · simp [cPure, model]
 
 /-! ## non-vacuity -/
--- an unambiguous MatchesSetwise input inside the domain, where the greedy algorithm has to skip a matcher
-example : amb (.setwise [0, 1] [1, 0] [.leaf (.equals (.int 1)), .leaf (.equals (.int 2))]) (.list [.int 2, .int 1]) = false
-    ∧ spec (.setwise [0, 1] [1, 0] [.leaf (.equals (.int 1)), .leaf (.equals (.int 2))]) (.list [.int 2, .int 1]) = some .match := by
-  decide
+-- the only perfect pairing is not the greedy one in either order: 1↦Equals(1), 2↦Any(1,2), 3↦Any(2,3)
+example : spec (.setwise [0, 1, 2] [1, 0, 2]
+      [.any [.leaf (.equals (.int 1)), .leaf (.equals (.int 2))], .any [.leaf (.equals (.int 2)), .leaf (.equals (.int 3))],
+       .leaf (.equals (.int 1))]) (.list [.int 1, .int 2, .int 3]) = some .match := by decide
+-- no pairing: two values for one accepting matcher
+example : spec (.setwise [0, 1] [1, 0] [.leaf (.equals (.int 1)), .leaf .never]) (.list [.int 1, .int 1]) = some .mismatch := by decide
 -- a nested expression inside the domain with verdict mismatch; and a value outside the domain
 example : spec (.all false [.leaf (.lessThan (.int 3)), .not (.leaf (.equals (.int 2)))]) (.int 2) = some .mismatch := by decide
 example : spec (.leaf (.lessThan (.int 3))) (.str [97]) = none := by decide
 -- the propagate rule of Raises
 example : spec (.raises (.leaf (.excType [.valueError]))) (.fnRaise ⟨.keyboardInterrupt, 0⟩) = some (.raised .keyboardInterrupt) := by decide
-example : setwiseFree (.dict .exact [0] [.allMatch (.leaf .always)]) = true := by decide
 
 end TTV.Props.C06
